@@ -12,6 +12,7 @@ NewQuery splices, how Clone finds literals or how the ticker computes its next t
 (4) history: the queries for a span (start, stop] are those of exactly the live ticks T of a task started
     at `start` with T ≤ stop and T − offset ≤ now, in order, each once      (`HistSpec`, `histHolds`);
 (5) alignGroup: the group-by-time buckets are aligned with the start of the range (`gbAligned`);
+(5b) fill and tag dimensions are kept (`extraKept`); a result batch is stamped with the window's end (`batchTimeHolds`);
 (6) only declared database/retention policies are queried                     (`onlyDeclared`).
 Core Lean only.
 -/
@@ -68,6 +69,8 @@ inductive Schedule where
   | every (d : Int) (align : Bool)
   /-- the cron schedules `*/k * * * * * *` (k | 60): every K = k s in ns, on the Unix second grid -/
   | cronEvery (K : Int)
+  /-- a cron schedule that ends (year field): its firing times, ascending -/
+  | cronList (fires : List Int)
 deriving DecidableEq, Repr, Inhabited
 
 /-- `T` is a time at which a task started at `s0` ticks. -/
@@ -76,14 +79,16 @@ def LiveTick (sch : Schedule) (s0 T : Int) : Bool :=
   | .every d false => decide (s0 < T) && decide ((T - s0) % d = 0)
   | .every d true => decide (s0 < T) && decide ((T + zeroOff) % d = 0)
   | .cronEvery K => decide (s0 < T) && decide (T % K = 0)
+  | .cronList fires => decide (s0 < T) && fires.contains T
 
 /-- Closed form of "the first live tick after `t`" (for `t ≥ s0`); `Kap.Props.C16.firstLiveAfter_least`
-proves it is the least `T > t` with `LiveTick sch s0 T`. -/
-def firstLiveAfter (sch : Schedule) (s0 t : Int) : Int :=
+proves it is the least `T > t` with `LiveTick sch s0 T` (`none`: there is none). -/
+def firstLiveAfter (sch : Schedule) (s0 t : Int) : Option Int :=
   match sch with
-  | .every d false => s0 + ((t - s0) / d + 1) * d
-  | .every d true => ((t + zeroOff) / d + 1) * d - zeroOff
-  | .cronEvery K => (t / K + 1) * K
+  | .every d false => some (s0 + ((t - s0) / d + 1) * d)
+  | .every d true => some (((t + zeroOff) / d + 1) * d - zeroOff)
+  | .cronEvery K => some ((t / K + 1) * K)
+  | .cronList fires => fires.find? (fun f => decide (t < f))   -- `none`: the schedule has ended
 
 /-! ### (4) the historical list -/
 
@@ -100,8 +105,11 @@ def HistSpec (live : Int → Bool) (start stop now offset period : Int) (ranges 
 /-- Executable check that `ticks` are exactly the live ticks in (prev, bound], in order: each one is the
 first live tick after its predecessor, and the first live tick after the last one is beyond the bound. -/
 def ticksExact (sch : Schedule) (s0 bound : Int) : Int → List Int → Bool
-  | prev, [] => decide (bound < firstLiveAfter sch s0 prev)
-  | prev, T :: rest => decide (T = firstLiveAfter sch s0 prev) && decide (T ≤ bound) && ticksExact sch s0 bound T rest
+  | prev, [] =>
+    match firstLiveAfter sch s0 prev with
+    | some n => decide (bound < n)
+    | none => true
+  | prev, T :: rest => (firstLiveAfter sch s0 prev == some T) && decide (T ≤ bound) && ticksExact sch s0 bound T rest
 
 /-- Executable form of `HistSpec`. -/
 def histHolds (sch : Schedule) (start stop now offset period : Int) (ranges : List (Int × Int)) : Bool :=
@@ -112,6 +120,16 @@ def histHolds (sch : Schedule) (start stop now offset period : Int) (ranges : Li
 
 /-- Buckets of `GROUP BY time(len, off)` start at `off + k·len`: aligned with `s` when `s` is such a point. -/
 def gbAligned (s : Int) (gb : Int × Int) : Bool := decide ((s - gb.2) % gb.1 = 0)
+
+/-! ### (5b) what else the user wrote stays; the batch carries the window's end -/
+
+/-- Fill option and tag / `*` dimensions of an issued text are the configured ones. -/
+def extraKept (configured issued : String) : Bool := configured == issued
+
+/-- The time on a result batch: the query's stop (the window's end) — unless the query is grouped by time, then
+the latest point time of the result (`ptMax`; without points again the stop). -/
+def batchTimeHolds (groupedByTime : Bool) (ptMax : Option Int) (stop bt : Int) : Bool :=
+  if groupedByTime then bt == ptMax.getD stop else bt == stop
 
 /-! ### (6) declared sources -/
 
